@@ -184,7 +184,7 @@ class FsScenario(Scenario):
             res["tree0"] = tree0
             obs = run.build()
             wp = run.watch_path()
-            obs.schedule(run.handlers[0], wp, recursive=run.recursive)
+            run.watch0 = obs.schedule(run.handlers[0], wp, recursive=run.recursive)
             tk = case["watch"].get("twin_kind")
             if tk is not None:
                 # the same directory scheduled a second time on the same observer, given in the other path type
@@ -501,7 +501,8 @@ class C07(FsScenario):
         if rng.random() < 0.25:
             case["ops"].append(["drain"])
             case["ops"].append(["rmroot"])
-            case["reschedule_after_rmroot"] = rng.random() < 0.5
+            case["reschedule_after_rmroot"] = rng.choice([0, 0, 1, 2])  # 2: also once too early, while the root is still missing
+            case["unschedule_after_failed_reschedule"] = rng.random() < 0.5
         elif rng.random() < 0.2:
             case["early_stop"] = True
             case["sched"]["line"] = True
@@ -518,6 +519,20 @@ class C07(FsScenario):
         res["root_deleted_events"] = [e["shape"] for e in run.events if e["shape"][2] == "root" and e["shape"][0] == "deleted"]
         res["alive_after_rmroot"] = [t.name for t in sim.tasks if t.kind == "lib" and t.state != DONE and not t.name.startswith("BaseObserver")]
         res["open_fds_after_rmroot"] = run.kshim.open_fds()
+        if run.case.get("reschedule_after_rmroot") == 2 and "add_fail" not in run.case["faults"]:
+            # the application schedules the watch again too early, while the directory is still missing: that call fails
+            # (and, as a call that failed, must leave things as they were)
+            try:
+                run.observer.schedule(run.handlers[0], run.watch_path(), recursive=run.recursive)
+                res["early_reschedule"] = "returned"
+            except OSError:
+                res["early_reschedule"] = "OSError"
+                if run.case.get("unschedule_after_failed_reschedule"):
+                    # ... and reacts to the failure by dropping the watch
+                    try:
+                        run.observer.unschedule(run.watch0)
+                    except Exception as e:  # noqa: BLE001
+                        res["unschedule_after_reschedule_exc"] = repr(e)
         n0 = len(run.events)
         os.mkdir(run.real("root"))
         with open(run.real("root/again"), "w"):
@@ -528,11 +543,15 @@ class C07(FsScenario):
             # the application reacts to DirDeleted(root): the directory is back, so it schedules the same watch again
             n1 = len(run.events)
             try:
-                run.observer.schedule(run.handlers[0], run.watch_path(), recursive=run.recursive)
+                w2 = run.observer.schedule(run.handlers[0], run.watch_path(), recursive=run.recursive)
                 with open(run.real("root/again2"), "w"):
                     pass
                 sim.wait_quiescent()
                 res["rescheduled"] = [e["shape"] for e in run.events[n1:] if e["h"] == 0]
+                try:
+                    run.observer.unschedule(w2)
+                except Exception as e:  # noqa: BLE001
+                    res["unschedule_after_reschedule_exc"] = repr(e)
             except OSError as e:
                 res["rescheduled_exc"] = repr(e)
         import shutil
@@ -568,6 +587,8 @@ class C07(FsScenario):
                 v.append(Violation("root-deleted", "C07:descriptors-open-after-root-deleted-and-stop", f"{res['open_fds']}"))
             if "rescheduled" in res and not any(sh[0] == "created" and sh[2] == "root/again2" for sh in res["rescheduled"]):
                 v.append(Violation("root-deleted", "C07:watch-scheduled-again-after-root-came-back-reports-nothing", f"schedule() returned normally, then root/again2 was created; delivered {res['rescheduled'][:4]}"))
+            if res.get("unschedule_after_reschedule_exc"):
+                v.append(Violation("root-deleted", "C07:unschedule-raised-after-reschedule", f"{res['unschedule_after_reschedule_exc']} (early schedule() on the missing root: {res.get('early_reschedule')})"))
             if res.get("rescheduled_exc"):
                 v.append(Violation("root-deleted", "C07:schedule-after-root-came-back-raised", res["rescheduled_exc"]))
             if res.get("open_fds_after_rmroot") and not res["alive_after_rmroot"]:
